@@ -1,9 +1,10 @@
 (* C17 -- Timing, path and fan-out analyses equal their graph-theoretic
    definitions.  Only statements + `exact`; models in Analysis/{Timing,Paths,
    Fanout}.v, specification in Analysis/PathSpec.v, proofs in Analysis/*Proofs.v. *)
-From Coq Require Import QArith.
+From Coq Require Import QArith Floats.
 From PyRTL Require Import Analysis.PathSpec Analysis.TimingProofs Analysis.PathsProofs
-  Analysis.FanoutProofs Analysis.FormulaProofs Analysis.CritProofs Gen.TimingFormula.
+  Analysis.FanoutProofs Analysis.FormulaProofs Analysis.CritProofs Analysis.PathSpecOrd
+  Analysis.TimingOrdProofs Gen.TimingFormula.
 Open Scope Z_scope.
 
 (* ---- timing ------------------------------------------------------------- *)
@@ -115,6 +116,75 @@ Theorem C17_critical_paths_exact : forall nl (dl : net -> Z) (cp_limit : Z),
     (is_base nl w0 = true /\ exists wend, cpath nl dl w0 p wend /\ wsum dl p = max_length nl dl).
 Proof. exact critical_paths_exact. Qed.
 Print Assumptions C17_critical_paths_exact.
+
+(* ---- timing with delays in ANY ordered domain (covers the float default table) ---- *)
+
+(* The three timing theorems above are about integer delays.  TimingAnalysis itself is
+   generic in the delay type: with the default table the delays are Python floats.
+   Analysis/TimingOrd.v is the same model over an arbitrary domain D (zero, +, <=, ==,
+   "< 0"), and the theorems hold for every D whose <= is a total preorder and whose
+   addition is monotone in its left argument (`ordered_delays`) -- which is what
+   IEEE-754 round-to-nearest addition on finite numbers satisfies.  So for float
+   delays, with NO rounding abstracted: each timing_map entry is attained by a source
+   path whose delays are summed left to right, and is >= the left-to-right sum of every
+   source path. *)
+Theorem C17_timing_is_longest_path_ordered :
+  forall (D : Type) (dzero : D) (dadd : D -> D -> D) (dleb : D -> D -> bool) (dneg : D -> bool)
+         nl (dl : net -> D),
+  ordered_delays D dadd dleb -> wfb nl = true ->
+  (forall n, In n (nets nl) -> dneg (dl n) = negb (is_comb (nop n)) /\ nargs n <> []) ->
+  forall w, In w (map wname (wires nl)) ->
+  exists t, gassoc D (gtiming_map D dzero dadd dleb dneg nl dl) w = Some t
+            /\ g_is_longest D dzero dadd dleb dneg nl dl w t.
+Proof. exact timing_longest_ordered. Qed.
+Print Assumptions C17_timing_is_longest_path_ordered.
+
+Theorem C17_max_length_ordered :
+  forall (D : Type) (dzero : D) (dadd : D -> D -> D) (dleb : D -> D -> bool) (dneg : D -> bool)
+         nl (dl : net -> D),
+  ordered_delays D dadd dleb -> wfb nl = true ->
+  (forall n, In n (nets nl) -> dneg (dl n) = negb (is_comb (nop n)) /\ nargs n <> []) ->
+  wires nl <> [] ->
+  (exists w, g_is_longest D dzero dadd dleb dneg nl dl w (gmax_length D dzero dadd dleb dneg nl dl))
+  /\ (forall w t, gassoc D (gtiming_map D dzero dadd dleb dneg nl dl) w = Some t ->
+                  dleb t (gmax_length D dzero dadd dleb dneg nl dl) = true).
+Proof. exact max_length_ordered. Qed.
+Print Assumptions C17_max_length_ordered.
+
+(* every returned critical path, its delays summed left to right in D, is == max_length
+   (<= and >= in the order; `eq_agrees`: the code's == implies both) *)
+Theorem C17_critical_paths_sum_ordered :
+  forall (D : Type) (dzero : D) (dadd : D -> D -> D) (dleb deqb : D -> D -> bool) (dneg : D -> bool)
+         nl (dl : net -> D) (cp_limit : Z),
+  ordered_delays D dadd dleb -> eq_agrees D dleb deqb -> wfb nl = true ->
+  (forall n, In n (nets nl) -> dneg (dl n) = negb (is_comb (nop n)) /\ nargs n <> []) ->
+  (forall n, In n (nets nl) -> is_comb (nop n) = false -> has_dest n = true ->
+             is_base nl (ndest n) = true) ->
+  forall w0 p, In (w0, p) (gcritical_path D dzero dadd dleb deqb dneg nl dl cp_limit) ->
+  is_base nl w0 = true /\
+  exists wend, gcpath D dneg nl dl w0 p wend
+    /\ dleb (gsum D dzero dadd dl p) (gmax_length D dzero dadd dleb dneg nl dl) = true
+    /\ dleb (gmax_length D dzero dadd dleb dneg nl dl) (gsum D dzero dadd dl p) = true.
+Proof. exact critical_paths_sum_ordered. Qed.
+Print Assumptions C17_critical_paths_sum_ordered.
+
+(* the integer model used by all the other theorems IS the generic model at D = Z *)
+Theorem C17_integer_model_is_instance : forall nl (dl : net -> Z) (cp_limit : Z),
+  timing_map nl dl = gtiming_map Z 0 Z.add Z.leb zneg nl dl
+  /\ max_length nl dl = gmax_length Z 0 Z.add Z.leb zneg nl dl
+  /\ critical_path nl dl cp_limit = gcritical_path Z 0 Z.add Z.leb Z.eqb zneg nl dl cp_limit.
+Proof.
+  exact (fun nl dl l => conj (timing_map_Z_instance nl dl)
+                             (conj (max_length_Z_instance nl dl) (critical_path_Z_instance nl dl l))).
+Qed.
+Print Assumptions C17_integer_model_is_instance.
+
+(* the hypotheses are satisfiable: by Z, and by a monotone but not strictly monotone
+   domain (saturating addition -- the shape of float absorption, 1e16 + 1 = 1e16) *)
+Theorem C17_ordered_delays_instances :
+  (ordered_delays Z Z.add Z.leb /\ eq_agrees Z Z.leb Z.eqb) /\ ordered_delays Z sat_add Z.leb.
+Proof. exact (conj Z_ordered sat_ordered). Qed.
+Print Assumptions C17_ordered_delays_instances.
 
 (* ---- max_freq and the default table (regenerated from the source) -------- *)
 
@@ -273,6 +343,16 @@ Example C17_example_limit :
   /\ critical_paths_all ex_nl (tab_delay ex_tab ex_nl)
      = critical_path ex_nl (tab_delay ex_tab ex_nl) 100.
 Proof. vm_compute. repeat split; reflexivity. Qed.
+
+(* the model at D = binary64 on the example with delays 0.1 (+), 0.2 (~), 0.3 (&), 0 elsewhere:
+   t5 = (0.1 + 0.2) + 0.3 = 0.6000000000000001, rounding included *)
+Example C17_example_float :
+  float_pair (f_max_length ex_nl (fun n => match nop n with
+                                           | OpAdd => 0x1.999999999999ap-4 | OpNot => 0x1.999999999999ap-3
+                                           | OpAnd => 0x1.3333333333333p-2
+                                           | OpReg | OpMemWr _ => (-1) | _ => 0 end)%float)
+  = (5404319552844596, -53).
+Proof. vm_compute. reflexivity. Qed.
 
 Example C17_example_values :
   map (assoc (timing_map ex_nl (tab_delay ex_tab ex_nl))) [1; 2; 3; 4; 5; 6; 7]
